@@ -14,12 +14,19 @@
 //! MAYV_SCOPE=1 adds a scoped owner per round: it takes a Mutex, opens coroutine::scope with a child that panics
 //! (payload p) and possibly a well-behaved one: the panic must be re-raised in the owner (join(owner) = Err(p)), the
 //! owner's guard must poison and release.  MAYV_SELECT=1 does the same with select! (a panicking top half).
-//! MAYV_O2=1 (not part of the check; replay of observation O2): the owner has to wait for a second child WHILE it
-//! unwinds and may be resumed on another worker, where std::thread::panicking() is false.
-//! MAYV_RUNWIND=1 with 2 workers (not part of the check; replay of O2 inside the runtime itself): a body may panic / be
-//! cancelled while it holds a READ guard; RwLockReadGuard::drop blocks on the reader-count mutex, the coroutine is
-//! resumed by another worker while it unwinds, the thread-local panic counters of both workers are wrong from then
-//! on (MAYV_TLSCHECK=1 prints the migration) and a later genuine panic there does not poison.
+//! MAYV_WAITUNW=1: the scope owner may have a second child it has to wait for WHILE it unwinds (Drop for Scope);
+//! checked only with the owner alone on one worker (MAYV_N=0 MAYV_WORKERS=1): while a coroutine is suspended inside
+//! its unwinding, std::thread::panicking() is true for everything else that thread runs (observation O2).
+//! MAYV_O2=1 (not part of the check; replay of O2): the same with other coroutines around and two workers; the owner
+//! may be resumed on another worker, where std::thread::panicking() is false: its guard does not poison.
+//! MAYV_RUNWIND=1: a body may panic / be cancelled while it holds a READ guard.  Checked only with MAYV_NOSLEEP=1
+//! MAYV_WORKERS=1 (then the worker is the only thread that runs coroutines - a sleeping coroutine is resumed by the
+//! timer thread - and RwLockReadGuard::drop never has to wait).  Otherwise (not part of the check; replay of O2 inside
+//! the runtime itself): RwLockReadGuard::drop blocks on the reader-count mutex while the coroutine unwinds; it may be
+//! resumed by another thread - the thread-local panic counters of both threads are wrong from then on, a later genuine
+//! panic there does not poison -, and while it is suspended the thread it left reports thread::panicking() = true to
+//! every other coroutine: a cancelled coroutine that loops on yield_now() is then never cancelled and never leaves the
+//! worker (livelock; MAYV_TLSCHECK=1 prints what happened).
 //! MAYV_D1=1 (not part of the check; replay of the reported defect): cancel() reaches a coroutine that then
 //! panics for real inside a guard.
 //!
@@ -128,6 +135,7 @@ struct Sh {
     cancel_pct: u64,
     d1: bool,
     r_unwind: bool,
+    nosleep: bool,
     locks: Vec<LockSt>,
     exec: Vec<AtomicU32>,
     ready: Vec<AtomicBool>,
@@ -154,7 +162,11 @@ fn plan(sh: &Sh, j: usize) -> Plan {
     let mut ops = vec![];
     for _ in 0..nops {
         let kind = [LK::M, LK::M, LK::W, LK::R][r.below(4) as usize];
-        ops.push(Op { kind, k: r.below(nl) as usize, inside: r.below(3) });
+        let mut inside = r.below(3);
+        if sh.nosleep && inside == 2 {
+            inside = 1;
+        }
+        ops.push(Op { kind, k: r.below(nl) as usize, inside });
     }
     let x = r.below(100);
     let v = 1 + r.below(50) + 100 * (j as u64);
@@ -171,7 +183,11 @@ fn plan(sh: &Sh, j: usize) -> Plan {
     if !sh.r_unwind && end != End::Ret(v) && ops.last().map(|o| o.kind == LK::R).unwrap_or(false) {
         hold_at_end = false;
     }
-    Plan { ops, hold_at_end, end, early_cancel: r.below(2) == 0, block_how: r.below(3) }
+    let mut block_how = r.below(3);
+    if sh.nosleep && block_how == 1 {
+        block_how = 0;
+    }
+    Plan { ops, hold_at_end, end, early_cancel: r.below(2) == 0, block_how }
 }
 
 /// dropped BEFORE the guard (declared after it): leaves the critical section
@@ -246,6 +262,7 @@ struct BodyGuard {
 impl Drop for BodyGuard {
     fn drop(&mut self) {
         if std::env::var("MAYV_TLSCHECK").is_ok() {
+            println!("NOTE body {} ends on thread {} (thread::panicking() = {})", self.j, mayv::tid(), std::thread::panicking());
             let t0 = self.sh.unwind_tid[self.j].load(SeqCst);
             if t0 != usize::MAX && t0 != mayv::tid() {
                 let p = plan(&self.sh, self.j);
@@ -273,8 +290,30 @@ impl Drop for BodyGuard {
     }
 }
 
-fn block_forever(how: u64) -> ! {
+/// first destructor of a cancellation unwind out of block_forever: where did it start?
+struct UnwStart<'a>(&'a Sh, usize, u64);
+impl Drop for UnwStart<'_> {
+    fn drop(&mut self) {
+        self.0.unwind_tid[self.1].store(mayv::tid(), SeqCst);
+        if std::env::var("MAYV_TLSCHECK").is_ok() {
+            println!("NOTE body {} (blocked by kind {}) starts to unwind on thread {} (thread::panicking() = {})", self.1, self.2 % 3, mayv::tid(), std::thread::panicking());
+        }
+    }
+}
+
+fn block_forever(sh: &Sh, j: usize, how: u64) -> ! {
+    let _s = UnwStart(sh, j, how);
+    let mut n = 0u64;
     loop {
+        n += 1;
+        if n == 2000 && std::env::var("MAYV_TLSCHECK").is_ok() {
+            println!(
+                "NOTE a coroutine blocked at a cancellable call (kind {}) was resumed 2000 times without being cancelled; thread::panicking() = {} on thread {}",
+                how % 3,
+                std::thread::panicking(),
+                mayv::tid()
+            );
+        }
         match how % 3 {
             0 => may::coroutine::yield_now(),
             1 => may::coroutine::sleep(Duration::from_millis(1)),
@@ -302,11 +341,17 @@ fn finish(sh: &Sh, j: usize, p: &Plan, held: Option<(&LockSt, LK, &After)>) -> u
             }
             sh.panics.fetch_add(1, SeqCst);
             sh.unwind_tid[j].store(mayv::tid(), SeqCst);
+            if std::env::var("MAYV_TLSCHECK").is_ok() {
+                println!("NOTE body {j} panics on thread {} holding {:?}", mayv::tid(), held.map(|h| h.1));
+            }
             panic_any(v)
         }
         End::CancelHold => {
+            if std::env::var("MAYV_TLSCHECK").is_ok() {
+                println!("NOTE body {j} blocks for ever on thread {} holding {:?} (thread::panicking() = {})", mayv::tid(), held.map(|h| h.1), std::thread::panicking());
+            }
             sh.ready[j].store(true, SeqCst);
-            block_forever(p.block_how)
+            block_forever(sh, j, p.block_how)
         }
     }
 }
@@ -536,13 +581,14 @@ fn main() {
     let select = envn("MAYV_SELECT", 0) != 0;
     let o2 = envn("MAYV_O2", 0) != 0;
     let pool = envn("MAYV_POOL", 2) as usize;
-    let workers = cfg.workers;
+    let wait_unw = envn("MAYV_WAITUNW", 0) != 0;
     let sh = Arc::new(Sh {
         seed: cfg.seed,
         panic_pct: envn("MAYV_PANIC", 35),
         cancel_pct: envn("MAYV_CANCEL", 15),
         d1: envn("MAYV_D1", 0) != 0,
-        r_unwind: envn("MAYV_RUNWIND", if cfg.workers == 1 { 1 } else { 0 }) != 0,
+        r_unwind: envn("MAYV_RUNWIND", 0) != 0,
+        nosleep: envn("MAYV_NOSLEEP", 0) != 0,
         locks: (0..nlocks)
             .map(|_| LockSt {
                 m: Mutex::new(0),
@@ -570,7 +616,13 @@ fn main() {
         panics: AtomicUsize::new(0),
         cancels: AtomicUsize::new(0),
     });
-    std::panic::set_hook(Box::new(|_| {}));
+    if std::env::var("MAYV_TLSCHECK").is_ok() {
+        std::panic::set_hook(Box::new(|_| {
+            println!("NOTE a panic starts on thread {} (coroutine context: {})", mayv::tid(), may::coroutine::is_coroutine());
+        }));
+    } else {
+        std::panic::set_hook(Box::new(|_| {}));
+    }
     run(cfg, move |ctx| {
         may::config().set_pool_capacity(pool);
         let mut r = Rng(mix(sh.seed.wrapping_mul(31)) | 1);
@@ -621,7 +673,7 @@ fn main() {
                     }
                 }
                 if scope || select || o2 {
-                    owners.push(spawn_owner(&sh, select, o2, workers == 1, &mut r));
+                    owners.push(spawn_owner(&sh, select, o2, wait_unw, &mut r));
                 }
                 cancel_round(&sh, &hs, &mut r);
                 while !hs.is_empty() {
